@@ -573,7 +573,7 @@ def drive_points(mon: Monitor, rng: random.Random, count: int) -> None:
     nprng = np.random.default_rng(rng.randint(0, 2**31))
     for _ in range(count):
         ny, nx = rng.choice([1, 7, 100, 256, 1000]), rng.choice([1, 9, 100, 512, 4000])
-        k = rng.choice([1, 2, 5, 40])
+        k = rng.choice([1, 2, 5, 40, 1, 2, 5, 40, 0])  # 0: a selection that matched nothing
         mode = rng.choice(["inside", "straddle", "outside", "inside"])
         if mode == "inside":
             xy = nprng.uniform([0, 0], [nx, ny], size=(k, 2))
@@ -604,7 +604,9 @@ def drive_points(mon: Monitor, rng: random.Random, count: int) -> None:
         # how the points arrive: another memory layout, a read-only array, single precision, a numpy-integer image shape
         form = gen.ARRAY_FORMS[int(nprng.integers(0, len(gen.ARRAY_FORMS)))] if len(xy) else "plain"
         xy = gen.array_form(np.array(xy, dtype="float64"), form)
-        if int(nprng.integers(0, 6)) == 0 and np.isfinite(xy).all() and np.abs(xy).max() < 1e6:
+        if xy.size == 0:
+            pass
+        elif int(nprng.integers(0, 6)) == 0 and np.isfinite(xy).all() and np.abs(xy).max() < 1e6:
             xy = xy.astype("float32")
         elif int(nprng.integers(0, 4)) == 0 and np.isfinite(xy).all():
             # pixel indices as they come out of np.nonzero / image libraries: small integer types, signed and unsigned (padding and alignment arithmetic must not wrap in them)
